@@ -107,6 +107,7 @@ class SolveSeam:
         self.current = -1
         self.fired = []
         self.residuals = []  # (entry index, |Ax-b|_inf)
+        self.rel_residuals = []  # |Ax-b|_inf / |b|_inf
         self.setups = 0
         self.reused = 0
         self.amplitude = 0.0
@@ -151,7 +152,7 @@ class SolveSeam:
         """Start observing a new call on the same object."""
         self.fault = fault
         self.entries, self.current = 0, -1
-        self.fired, self.residuals = [], []
+        self.fired, self.residuals, self.rel_residuals = [], [], []
         self.setups = self.reused = 0
         self.amplitude = 0.0
         self.captured = None
@@ -188,6 +189,8 @@ class SolveSeam:
         try:
             A = obj.fully_reduced_matrix if obj.formulation == "pressure" else self._matrix_full
             r = float(np.max(np.abs(A @ x - b))) if np.all(np.isfinite(x)) else float("inf")
+            nb = float(np.max(np.abs(b)))
+            self.rel_residuals.append(r / nb if nb > 0 else (0.0 if r == 0 else float("inf")))
         except Exception:
             r = float("nan")
         self.residuals.append((self.current, r))
@@ -392,17 +395,24 @@ def check_result(cfg, rr: RunResult, out: Outcome, tag: str, step: int, fault=No
     # ---- M: mass balance to linear-solver precision
     rhs = ref.cell_volume * (b - a).ravel(order="F")
     imb = float(np.max(np.abs(ref.outflow(u) - rhs)))
+    # An iterative back-end that was GIVEN at most five iterations (swarm knob 'solve-stall') and returned with a
+    # relative residual above 1e-3 has no precision to speak of: the statement bounds the mass balance by the linear
+    # solver's precision, so nothing is claimed about it (distance/flux consistency and status still are).
+    stalled = (cfg["linear_solver"] != "direct" and cfg.get("ls_options", {}).get("maxiter", 100) <= 5
+               and any(rr_ > 1e-3 for rr_ in seam.rel_residuals if rr_ == rr_))
+    if stalled:
+        out.counters["probe:linear-solver-stalled-unconverged"] += 1
     rmax = max([r for _, r in seam.residuals if r == r] + [0.0])
     if cfg["linear_solver"] == "direct":
         # the precision of a direct solve is round-off: a large measured residual (e.g. a stale factorisation
         # applied to another matrix) is a defect and must not widen the tolerance
         rmax = min(rmax, 1e-10 * (float(np.max(np.abs(rhs))) + 1e-300))
     scale_m = float(np.max(np.abs(rhs))) + float(np.max(np.abs(u)) if nf else 0.0) * max(ref.face_area) + 1e-300
-    tol_m = 1e-9 * scale_m + 50.0 * nc * rmax + float(os.environ.get("C04_AMP", "1e-12")) * seam.amplitude * max(ref.face_area) * max(1, ref.dim)
+    tol_m = 1e-9 * scale_m + 50.0 * nc * rmax + float(os.environ.get("C04_AMP", "0")) * seam.amplitude * max(ref.face_area) * max(1, ref.dim)
     if seam.amplitude * max(ref.face_area) > 1e3 * scale_m:
         out.counters["probe:iterate-blow-up(anderson)"] += 1
     out.extra["max_imbalance_over_scale"] = max(out.extra.get("max_imbalance_over_scale", 0.0), imb / scale_m)
-    if imb > tol_m:
+    if imb > tol_m and not stalled:
         out.violate("C04.M", f"{cfg['formulation']}:{cfg['linear_solver']}:{where}", step, tag=tag, imbalance=imb, tolerance=tol_m,
                     recorded_linear_residual=rmax, fault=fault, config=cfg)
 
@@ -432,7 +442,7 @@ def check_result(cfg, rr: RunResult, out: Outcome, tag: str, step: int, fault=No
         bad.append("pressure")
     ps = float(np.max(np.abs(p))) + 1e-300
     pin = abs(float(p[obj.constrained_cell_flat_index]))
-    if pin > 1e-8 * ps + 1e-12 + 10 * rmax:
+    if pin > 1e-8 * ps + 1e-12 + 10 * rmax and not stalled:
         bad.append("pressure-not-pinned")
     for name in bad:
         out.violate("C04.A", f"{name}", step, tag=tag, fault=fault, config=cfg)
